@@ -368,16 +368,26 @@ func (t *FatTeddy) FindMatch(haystack []byte, start int) (int, int) {
 	// Process candidates
 	for pos != -1 {
 		// Iterate through all set bits in bucket mask
+		// Several literals (in different buckets) can match at this position,
+		// e.g. "ecb" and "ecbg"; the alternation's leftmost-first choice is the
+		// one that comes first in pattern order, not the one in the lowest bucket.
+		bestPos, bestID := -1, -1
 		for bucketMask != 0 {
 			bucket := bits.TrailingZeros16(bucketMask)
-			bucketMask &^= 1 << bucket
+			bucketMask &^= 1 << bucket // Clear the bit
 
 			matchPos, patternID := t.verifyBucket(haystack[accumulatedOffset:], pos, bucket)
 			if matchPos != -1 && patternID >= 0 && patternID < len(t.patterns) {
-				matchStart := start + accumulatedOffset + matchPos
-				matchEnd := matchStart + len(t.patterns[patternID])
-				return matchStart, matchEnd
+				if bestID == -1 || patternID < bestID {
+					bestPos, bestID = matchPos, patternID
+				}
 			}
+		}
+		if bestID >= 0 {
+			// Match found! Return absolute start and end
+			matchStart := start + accumulatedOffset + bestPos
+			matchEnd := matchStart + len(t.patterns[bestID])
+			return matchStart, matchEnd
 		}
 
 		nextSearchStart := accumulatedOffset + pos + 1
